@@ -167,8 +167,10 @@ impl Report {
         self.assumptions.push(s.to_string());
     }
 
+    /// A violation was found - or a case hung inside the code under test (every further sub-run
+    /// would hang there too, for minutes each): either way no further sub-run is started.
     pub fn failed(&self) -> bool {
-        !self.violations.is_empty()
+        !self.violations.is_empty() || self.inconclusive.iter().any(|m| m.contains("stuck") || m.contains("did not finish within"))
     }
 
     pub fn absorb(&mut self, name: &str, r: SubRun) {
@@ -494,6 +496,16 @@ pub fn deadline<C: Serialize>(secs: u64, property: &str, kind: &str, case: &C, m
     Deadline { id }
 }
 
+/// End this worker (or, outside a worker, the whole check) as INCONCLUSIVE right now: threads of
+/// the case under way are stuck inside the code under test and cannot be ended, and whatever
+/// they hold (locks, process-wide state) would make the following cases hang as well.
+pub fn give_up(kind: &str, message: &str) -> ! {
+    let property = CURRENT_PROPERTY.lock().map(|p| p.clone()).unwrap_or_default();
+    fire(Armed { id: 0, due: Instant::now(), property, kind: kind.to_string(), case: serde_json::Value::Null, message: message.to_string(), violation: false })
+}
+
+static CURRENT_PROPERTY: Mutex<String> = Mutex::new(String::new());
+
 fn fire(a: Armed) -> ! {
     if a.violation {
         let replay = write_replay(&a.property, &a.kind, &a.case, &a.message);
@@ -556,6 +568,11 @@ where
         let mut st = stats.borrow_mut();
         if !st.frozen {
             st.evals += 1;
+        }
+        if let Ok(mut p) = CURRENT_PROPERTY.lock() {
+            if *p != property {
+                *p = property.to_string();
+            }
         }
         let _limit = deadline(CASE_LIMIT_SECS, property, kind, &case, &format!("a case did not finish within {CASE_LIMIT_SECS} s (stuck inside the code under test, or an overloaded machine)"), false);
         crate::clock::reset();
@@ -655,6 +672,11 @@ where
             break;
         }
         st.evals += 1;
+        if let Ok(mut p) = CURRENT_PROPERTY.lock() {
+            if *p != property {
+                *p = property.to_string();
+            }
+        }
         let _limit = deadline(CASE_LIMIT_SECS, property, kind, case, &format!("a case did not finish within {CASE_LIMIT_SECS} s (stuck inside the code under test, or an overloaded machine)"), false);
         crate::clock::reset();
         let r = std::panic::catch_unwind(std::panic::AssertUnwindSafe(|| f(case, &mut st)));
